@@ -278,7 +278,21 @@ func (h *H) Run(cc core.Cfg, sim *simrt.Sim) *core.Outcome {
 			})
 		}
 		wg.Wait()
-		simrt.Sleep(2 * time.Second)
+		// everything accepted must come out; an injected stall of the process moves the clock without letting
+		// anybody run, so wait for the condition (bounded), not for a fixed time
+		accepted := func() int {
+			n := 0
+			for _, ob := range all {
+				if ob.done && ob.seqRet != 0 {
+					n++
+				}
+			}
+			return n
+		}
+		for deadline := simrt.SimNow() + 30*time.Second; simrt.SimNow() < deadline && len(out.seen) < accepted(); {
+			simrt.Sleep(100 * time.Millisecond)
+		}
+		simrt.Sleep(500 * time.Millisecond)
 		if cfg.Threshold > 1 { // with threshold 1 the probe itself reaches the threshold
 			// every source has been silent for a while: "a banned source that falls silent is unbanned within the
 			// configured number of maintenance rounds plus one" - the rounds are the ANTISPAM interval's
